@@ -109,9 +109,19 @@ def main():
             res = parse(out)
             passed = {k for k, v in res.items() if v == 'ok'}
             miss = sorted(stable - passed)
+            regress = [t for t in miss if res.get(t) == 'FAILED']
+            flaky = []
+            for t in list(regress):
+                # re-run a failed stable test alone (other jobs on this machine share /tmp file names): a pass clears it
+                target, name = t.split('::', 1)
+                rc2, out2 = sh(['cargo', 'test', '--workspace', '--offline', '-j', jobs, '--test', target, '--', '--exact', name]) if not target.startswith('doctest:') else (1, '')
+                if rc2 != 0 and not target.startswith('doctest:'):
+                    rc2, out2 = sh(['cargo', 'test', '--workspace', '--offline', '-j', jobs, '--lib', '--', '--exact', name])
+                if rc2 == 0 and re.search(r'test result: ok\. [1-9]', out2):
+                    regress.remove(t); flaky.append(t)
             conf['suite'] = {'command': 'RUST_MIN_STACK=268435456 cargo test --workspace --no-fail-fast --offline', 'tests_seen': len(res),
                              'passed': len(passed), 'stable_pass_total': len(stable),
-                             'stable_pass_regressions': [t for t in miss if res.get(t) == 'FAILED'],
+                             'stable_pass_regressions': regress, 'failed_once_but_pass_alone': flaky,
                              'stable_pass_not_run': len([t for t in miss if t not in res])}
         conf['kept'] = bool(conf.get('patch_applies') and conf.get('builds_with_patch') and conf.get('demo_on_unmodified_tree') == 'passes'
                             and conf.get('demo_with_patch') == 'fails' and not conf.get('suite', {}).get('stable_pass_regressions')
